@@ -136,6 +136,106 @@ Section ClosedForms.
     rewrite xdiv_some by (apply not_0_INR; lia). rewrite sample_from_pop by lia.
     rewrite xsqrt_some by (apply samplevar_nonneg; lia). reflexivity.
   Qed.
+  (* third and fourth central moments from the power sums *)
+  Lemma cmom3_identity :
+    n <> 0%nat ->
+    let c := psum 1 V / INR n in
+    psum 3 V / INR n - 3 * c * (psum 2 V / INR n - c ^ 2) - c ^ 3 = cmom 3 V.
+  Proof.
+    intros Hn c. unfold cmom, meanR, nR. fold n. rewrite devsum3_expand. unfold nR. fold n.
+    rewrite <- psum_1. fold c. assert (HN : INR n <> 0) by (apply not_0_INR; exact Hn).
+    replace (psum 1 V) with (c * INR n) by (unfold c; field; exact HN).
+    set (S2 := psum 2 V). set (S3 := psum 3 V). clearbody S2 S3 c. field. exact HN.
+  Qed.
+
+  Lemma cmom4_identity :
+    n <> 0%nat ->
+    let c := psum 1 V / INR n in
+    psum 4 V / INR n - 4 * c * (psum 3 V / INR n) + 6 * c ^ 2 * (psum 2 V / INR n - c ^ 2) + 3 * c ^ 4
+    = cmom 4 V.
+  Proof.
+    intros Hn c. unfold cmom, meanR, nR. fold n. rewrite devsum4_expand. unfold nR. fold n.
+    rewrite <- psum_1. fold c. assert (HN : INR n <> 0) by (apply not_0_INR; exact Hn).
+    replace (psum 1 V) with (c * INR n) by (unfold c; field; exact HN).
+    set (S2 := psum 2 V). set (S3 := psum 3 V). set (S4 := psum 4 V). clearbody S2 S3 S4 c.
+    field. exact HN.
+  Qed.
+
+  Lemma emit_skew_spec mp :
+    (3 <= mp)%nat ->
+    emit_skew mp s =
+    if (mp <=? n)%nat then (if Rle_dec (popvarR V) EPS then Some 0 else Some (skewR V)) else None.
+  Proof.
+    intros Hmp. unfold emit_skew. rewrite mom_n.
+    destruct (mp <=? n)%nat eqn:E; [|reflexivity]. apply Nat.leb_le in E.
+    assert (Hn0 : n <> 0%nat) by lia.
+    rewrite popvar_of_spec by exact Hn0. change neps with (Some EPS). change nzero with (Some 0).
+    cbn [nleb NumXR xleb]. destruct (Rle_dec (popvarR V) EPS) as [Hle|Hgt]; [reflexivity|].
+    assert (Hvar : 0 < popvarR V) by (pose proof EPS_pos; lra).
+    destruct HA as (_ & H1 & _ & H3 & _).
+    assert (HN : INR n <> 0) by (apply not_0_INR; exact Hn0).
+    rewrite H1, H3, !xofnat, !xdiv_some by exact HN.
+    rewrite (xsqrt_some (popvarR V)) by lra.
+    assert (Hs : sqrt (popvarR V) <> 0).
+    { intros Hz. apply sqrt_eq_0 in Hz; lra. }
+    rewrite xdiv_some by exact Hs.
+    rewrite (xsqrt_some (INR (n * (n - 1)))) by apply pos_INR.
+    assert (Hn2 : INR (n - 2) <> 0) by (apply not_0_INR; lia).
+    rewrite xdiv_some by exact Hn2.
+    rewrite !powi_some.
+    assert (Hs3 : sqrt (popvarR V) ^ 3 <> 0) by (apply pow_nonzero; exact Hs).
+    rewrite xdiv_some by exact Hs3.
+    unfold three. cbn [nofZ NumXR]. rewrite !xmul_some, !xsub_some, xmul_some. f_equal.
+    unfold skewR, nR. fold n.
+    rewrite mult_INR, !minus_INR by lia. cbn [INR]. replace (1 + 1) with 2 by ring.
+    f_equal.
+    (* the bracket *)
+    set (sg := sqrt (popvarR V)) in *.
+    assert (Hsq : sg * sg = popvarR V) by (unfold sg; apply sqrt_sqrt; lra).
+    pose proof (cmom3_identity Hn0) as K. cbv zeta in K.
+    rewrite (popvar_identity Hn0) in K. fold (popvarR V). unfold popvarR in Hsq |- *.
+    fold (popvarR V) in Hsq. change (cmom 2 V) with (popvarR V). fold sg.
+    rewrite <- K. rewrite <- Hsq. fold V.
+    set (c := psum 1 V / INR n). set (e3 := psum 3 V / INR n). clearbody c e3 sg.
+    field. exact Hs.
+  Qed.
+
+  Lemma emit_kurt_spec mp :
+    (4 <= mp)%nat ->
+    emit_kurt mp s =
+    if (mp <=? n)%nat then (if Rle_dec (popvarR V) EPS then Some 0 else Some (kurtR V)) else None.
+  Proof.
+    intros Hmp. unfold emit_kurt. rewrite mom_n.
+    destruct (mp <=? n)%nat eqn:E; [|reflexivity]. apply Nat.leb_le in E.
+    assert (Hn0 : n <> 0%nat) by lia.
+    rewrite popvar_of_spec by exact Hn0. change neps with (Some EPS). change nzero with (Some 0).
+    cbn [nleb NumXR xleb]. destruct (Rle_dec (popvarR V) EPS) as [Hle|Hgt]; [reflexivity|].
+    assert (Hvar : 0 < popvarR V) by (pose proof EPS_pos; lra).
+    destruct HA as (_ & H1 & _ & H3 & H4).
+    assert (HN : INR n <> 0) by (apply not_0_INR; exact Hn0).
+    rewrite H1, H3, H4, !xofnat, !xdiv_some by exact HN.
+    unfold four, six, three. cbn [nofZ NumXR]. change none with (Some 1).
+    rewrite !xmul_some, xsub_some.
+    assert (Hv2 : popvarR V * popvarR V <> 0) by nra.
+    assert (Hd : INR ((n - 2) * (n - 3)) <> 0) by (apply not_0_INR; nia).
+    rewrite (xdiv_some _ (INR ((n - 2) * (n - 3)))) by exact Hd.
+    rewrite (xdiv_some _ (popvarR V * popvarR V)) by exact Hv2.
+    rewrite (xdiv_some _ (popvarR V)) by lra.
+    rewrite powi_some, !xmul_some, !xadd_some.
+    rewrite !xmul_some, xsub_some, xmul_some. f_equal.
+    unfold kurtR, nR. fold n. change (cmom 2 V) with (popvarR V).
+    pose proof (cmom4_identity Hn0) as K. cbv zeta in K.
+    rewrite (popvar_identity Hn0) in K. rewrite <- K.
+    rewrite !mult_INR, !minus_INR by nia. rewrite !mult_INR. cbn [INR]. 
+    replace (1 + 1 + 1) with 3 by ring. replace (1 + 1) with 2 by ring.
+    assert (HN4 : 4 <= INR n). { pose proof (le_INR 4 n ltac:(lia)) as Hq. simpl in Hq. lra. }
+    assert (HN2 : INR n - 2 <> 0) by lra.
+    assert (HN3 : INR n - 3 <> 0) by lra.
+    fold V.
+    set (c := psum 1 V / INR n). set (e3 := psum 3 V / INR n). set (e4 := psum 4 V / INR n).
+    set (v := popvarR V) in *. set (N := INR n) in *. clearbody c e3 e4 v N.
+    field. repeat split; lra.
+  Qed.
 End ClosedForms.
 
 (* the EPS floor is a rounding device: below it the textbook value is itself tiny *)
@@ -313,3 +413,73 @@ Qed.
 
 Lemma mp_eff_ge mp w k : (k <= mp_eff mp w k)%nat.
 Proof. unfold mp_eff. lia. Qed.
+
+(* ---- the plain family (never-null dictionary) coincides with the null-aware one on null-free input *)
+Lemma run_ext_in {St X O} (g1 g2 : St -> X -> St * O) (args : list X) :
+  (forall s a, In a args -> g1 s a = g2 s a) -> forall s, run g1 s args = run g2 s args.
+Proof.
+  induction args as [|a r IH]; intros H s; [reflexivity|]. cbn [run].
+  rewrite (H s a (or_introl eq_refl)). destruct (g2 s a) as [s' o]. f_equal.
+  apply IH. intros s0 a0 Ha0. apply H. right. exact Ha0.
+Qed.
+
+Definition all_some (a : option XR * XR) : Prop :=
+  (exists r, snd a = Some r) /\ (fst a = None \/ exists r, fst a = Some (Some r)).
+
+Lemma ts_run_ext {St O} (F G : feat XR St O) body (w : nat) (rs : list R) :
+  (1 <= w)%nat -> f_init F = f_init G ->
+  (forall s a, all_some a -> feat_cb F s a = feat_cb G s a) ->
+  ts_run F body w (map Some rs) = ts_run G body w (map Some rs).
+Proof.
+  intros Hw Hinit Hcb.
+  assert (Hargs : forall args,
+    (forall a, In a args -> all_some a) ->
+    run (feat_cb F) (f_init F) args = run (feat_cb G) (f_init G) args).
+  { intros args Hall. rewrite Hinit. apply run_ext_in. intros s a Ha. apply Hcb. apply Hall. exact Ha. }
+  assert (Hall : forall rem, (forall i, rem i = None \/ exists r, rem i = Some (Some r)) ->
+    forall a, In a (mapi (fun i v => (rem i, v)) (map (@Some R) rs)) -> all_some a).
+  { intros rem Hrem a Ha. apply In_nth_error in Ha. destruct Ha as [i Hi].
+    rewrite nth_error_mapi, nth_error_map in Hi.
+    destruct (nth_error rs i) as [r|]; [|discriminate]. cbn in Hi. injection Hi as <-.
+    split; [exists r; reflexivity|]. cbn [fst]. apply Hrem. }
+  unfold ts_run. destruct body.
+  - rewrite !rolling_apply_to_eq by exact Hw. f_equal. apply Hargs. unfold args_to. apply Hall.
+    intros i. unfold removed_to, removed. destruct (_ <? _); [left; reflexivity|].
+    rewrite nth_error_map. destruct (nth_error rs _) as [r|]; [right; exists r; reflexivity|left; reflexivity].
+  - rewrite !rolling_apply_default_eq by exact Hw. f_equal. apply Hargs. apply Hall.
+    intros i. unfold removed. destruct (_ <? _); [left; reflexivity|].
+    rewrite nth_error_map. destruct (nth_error rs _) as [r|]; [right; exists r; reflexivity|left; reflexivity].
+Qed.
+
+Theorem plain_family_mom (emit : @mom XR -> XR) body (w : nat) (rs : list R) :
+  (1 <= w)%nat ->
+  ts_run (mom_feat (DT := IsNone_never) emit) body w (map Some rs)
+  = ts_run (mom_feat (DT := IsNoneXR) emit) body w (map Some rs).
+Proof.
+  intros Hw. apply ts_run_ext; [exact Hw|reflexivity|].
+  intros s a ((r & Hr) & Hrm). destruct a as [rm v]. cbn [fst snd] in *. subst v.
+  unfold feat_cb. cbn [fst snd f_pre f_post f_emit mom_feat].
+  destruct Hrm as [->|(r' & ->)]; reflexivity.
+Qed.
+
+Theorem plain_family_ewm (w : nat) mp body (rs : list R) :
+  (1 <= w)%nat ->
+  ts_run (ts_vewm_f (DT := IsNone_never) w mp) body w (map Some rs)
+  = ts_run (ts_vewm_f (DT := IsNoneXR) w mp) body w (map Some rs).
+Proof.
+  intros Hw. apply ts_run_ext; [exact Hw|reflexivity|].
+  intros s a ((r & Hr) & Hrm). destruct a as [rm v]. cbn [fst snd] in *. subst v.
+  unfold feat_cb. cbn [fst snd f_pre f_post f_emit ts_vewm_f].
+  destruct Hrm as [->|(r' & ->)]; reflexivity.
+Qed.
+
+Theorem plain_family_wma (w : nat) mp body (rs : list R) :
+  (1 <= w)%nat ->
+  ts_run (ts_vwma_f (DT := IsNone_never) w mp) body w (map Some rs)
+  = ts_run (ts_vwma_f (DT := IsNoneXR) w mp) body w (map Some rs).
+Proof.
+  intros Hw. apply ts_run_ext; [exact Hw|reflexivity|].
+  intros s a ((r & Hr) & Hrm). destruct a as [rm v]. cbn [fst snd] in *. subst v.
+  unfold feat_cb. cbn [fst snd f_pre f_post f_emit ts_vwma_f].
+  destruct Hrm as [->|(r' & ->)]; reflexivity.
+Qed.
